@@ -671,6 +671,7 @@ def judge_filtered(rep, trace, n, sig_of, spec, cfg):
             continue
         r = recs[i]
         rep.violation(sig, "step rejected by %s, clauses %s: step=%s exc=%r regs=%s pre=%s post=%s calls=%s probe=%s" %
-                      (spec, cl, r["m"], r["exc"], r["regs"], r["pre"], r["post"], r["calls"], r["probe"]),
+                      (spec, cl, r["m"], r["exc"], r["regs"], r["pre"], r["post"], r.get("calls", [r.get("lcalls"), r.get("ocalls")]),
+                       r.get("probe", [r.get("lprobe"), r.get("oprobe")])),
                       case={"record": r, "clauses": cl, "judge": spec})
 
